@@ -47,6 +47,7 @@ type Case struct {
 	Dest     string   `json:"dest,omitempty"`     // destination relative to the snapshot dir
 	DestForm string   `json:"destform,omitempty"` // "", slash, dslash, dotmid
 	DestPre  string   `json:"destpre,omitempty"`  // tree: absent | empty
+	ZipPre   string   `json:"zippre,omitempty"`   // tree: state of the archive file before ZipFolder: "" (absent) | stale (a larger valid archive from an earlier run) | garbage (a larger file of other bytes) | empty
 	Before   []Item   `json:"before,omitempty"`   // hostile: content of the snapshot dir before
 	KF       string   `json:"kf,omitempty"`
 }
@@ -328,6 +329,7 @@ func runTree(c *Case, s *hx.Sink, sb string) string {
 	s.Count(fmt.Sprintf("tree_depth:%d", maxd))
 	s.Count("tree_srcform:" + c.SrcForm)
 	s.Count("destform:" + c.DestForm)
+	s.Count("zippre:" + c.ZipPre)
 	srcAbs := filepath.Join(sb, c.Src)
 	must(os.MkdirAll(srcAbs, 0o755))
 	var fl []string
@@ -386,6 +388,18 @@ func runTree(c *Case, s *hx.Sink, sb string) string {
 				fterm = "FRejectAll"
 			}
 			zipFile := filepath.Join(sb, fmt.Sprintf("z%d.zip", k))
+			// the archive name may be in use already (a reused backup name): ZipFolder has to replace the
+			// file, whatever it held; half of the runs of such a case start from the pre-existing file
+			if k%2 == 1 {
+				switch c.ZipPre {
+				case "stale":
+					writeArchive(zipFile, []Item{{P: "stale/old1.bin", C: "300000:7"}, {P: "stale/old2.txt", C: "1200:9"}, {P: "old3", C: "0:1"}})
+				case "garbage":
+					must(os.WriteFile(zipFile, content("400000:11"), 0o644))
+				case "empty":
+					must(os.WriteFile(zipFile, nil, 0o644))
+				}
+			}
 			var err error
 			panicked := false
 			func() {
